@@ -29,6 +29,30 @@ struct probe_cfg {
     std::uint64_t tag;
 };
 
+// VERIF_PROBE_MIMIC lets the same harnesses run over probes that LOOK like other backends to compile-time
+// inspection: 1 = configuration is nd_size<N> (like a storage-order layer), 2 = configuration is nd_size<1> and the
+// owning data is constructible from (size) and (size, buffer) (like the array backend).  A layer that special-cases
+// its backend's type then shows its special case over a probe too.
+#ifndef VERIF_PROBE_MIMIC
+#define VERIF_PROBE_MIMIC 0
+#endif
+
+template <std::size_t N, int Mimic>
+struct cfg_of {
+    using type = probe_cfg;
+    static std::uint64_t tag(const type & c) { return c.tag; }
+};
+template <std::size_t N>
+struct cfg_of<N, 1> {
+    using type = covfie::array::array<std::size_t, N>;
+    static std::uint64_t tag(const type & c) { return c[0]; }
+};
+template <std::size_t N>
+struct cfg_of<N, 2> {
+    using type = covfie::array::array<std::size_t, 1>;
+    static std::uint64_t tag(const type & c) { return c[0]; }
+};
+
 template <typename In, bool ScalarIn, typename Out, bool RefOut>
 struct probe {
     using this_t = probe<In, ScalarIn, Out, RefOut>;
@@ -43,7 +67,8 @@ struct probe {
         covfie::vector::array_reference_vector_d<Out>,
         covfie::vector::array_vector_d<Out>>;
     using value_t = covfie::array::array<typename Out::type, Out::size>;
-    using configuration_t = probe_cfg;
+    using cfg_traits = cfg_of<In::size, VERIF_PROBE_MIMIC>;
+    using configuration_t = typename cfg_traits::type;
 
     struct owning_data_t {
         using parent_t = this_t;
@@ -56,6 +81,16 @@ struct probe {
             : m_cfg(c)
         {
         }
+#if VERIF_PROBE_MIMIC == 2
+        explicit owning_data_t(std::size_t n)
+            : m_cfg(n)
+        {
+        }
+        explicit owning_data_t(std::size_t n, std::unique_ptr<value_t[]> &&)
+            : m_cfg(n)
+        {
+        }
+#endif
         explicit owning_data_t(covfie::parameter_pack<configuration_t> && p)
             : m_cfg(p.x)
         {
@@ -74,7 +109,7 @@ struct probe {
         }
         static void write_binary(std::ostream & fs, const owning_data_t & o)
         {
-            io_write(fs, o.m_cfg.tag);
+            io_write(fs, cfg_traits::tag(o.m_cfg));
         }
         configuration_t m_cfg{0};
     };
@@ -90,9 +125,9 @@ struct probe {
         value_t * call(const typename contravariant_input_t::vector_t & c, std::index_sequence<Is...>) const
         {
             if constexpr (ScalarIn) {
-                return sink<value_t>(m_cfg.tag, c);
+                return sink<value_t>(cfg_traits::tag(m_cfg), c);
             } else {
-                return sink<value_t>(m_cfg.tag, c[Is]...);
+                return sink<value_t>(cfg_traits::tag(m_cfg), c[Is]...);
             }
         }
 
